@@ -320,7 +320,7 @@ func cmdCheck(args []string) {
 	discharged, claimed := 0, 0
 	bySolver := map[string]int{}
 	solverTime := 0.0
-	var violations, undecided []*Obligation
+	var violations, undecided, stale []*Obligation
 	knownPrinted := map[string]bool{}
 	var knownList []string
 	for _, o := range all {
@@ -337,6 +337,13 @@ func cmdCheck(args []string) {
 				fmt.Printf("KNOWN-FINDING: property=%s %s (obligation %s)\n", *prop, f.what, f.obligation)
 				knownList = append(knownList, f.obligation+": "+f.what)
 			}
+			continue
+		}
+		if o.Status == "error" {
+			// every solver rejected the query as ill-formed: the contract text no longer type-checks against the
+			// source (a field changed its type, a parameter was renamed...). That is no verdict about the code.
+			claimed++
+			stale = append(stale, o)
 			continue
 		}
 		claimed++
@@ -385,6 +392,14 @@ func cmdCheck(args []string) {
 	for _, o := range undecided {
 		fmt.Printf("UNDECIDED obligation=%s status=%s (not in baseline; no verdict)\n", o.Name, o.Status)
 	}
+	staleFuncs := map[string]int{}
+	for _, o := range stale {
+		staleFuncs[o.Func]++
+	}
+	for f, n := range staleFuncs {
+		fmt.Printf("STALE-CONTRACT function=%s obligations=%d: the queries built from its contract and the current source are ill-sorted (every solver rejected them); the contract no longer fits the code -- not decided\n", f, n)
+	}
+	undecided = append(undecided, stale...)
 	for _, ef := range engineFaults {
 		fmt.Printf("ENGINE-FAULT %s\n", ef)
 	}
